@@ -378,6 +378,19 @@ pub fn run(ctx: &Ctx) -> Report {
         let prog = f1_prog(&[&pool[d[1] as usize]], &lines[d[0] as usize]);
         judge_prog(&prog, "F1-1", &opts, l);
     }));
+    // F1 singles again for the templates with sub-rule operands, in a program that also declares SYMBOLS named like the
+    // sub-rules' literals (`a`, `r1`, `b`): the literal spelling must still win over the expression reading, in every
+    // operand position
+    let shadow: Vec<usize> = (0..pool.len()).filter(|i| pool[*i].needs_reg).collect();
+    let nsh = shadow.len() as u64;
+    rep.absorb(par_run(nsh * nl, |i, l| {
+        let d = decode(i, &[nl, nsh]);
+        let mut prog = f1_prog(&[&pool[shadow[d[1] as usize]]], &lines[d[0] as usize]);
+        for (n, v) in [("a", "0x55"), ("r1", "0x66"), ("b", "0x77")] {
+            prog.items.insert(0, Item::Const(n.into(), v.into()));
+        }
+        judge_prog(&prog, "F1-1-literals-shadowed-by-symbols", &opts, l);
+    }));
     // F1 pairs (unordered; rule order inside the block is C07's business — both orders in thorough)
     let mut pairs = vec![];
     for a in 0..pool.len() {
